@@ -3,6 +3,7 @@ package engines
 
 import (
 	"harness/flags"
+	"harness/hostile"
 	"harness/order"
 	"harness/sim"
 	"harness/unpack"
@@ -30,6 +31,8 @@ func Lookup(prop string) Engine {
 		return func(r *sim.R) { flags.Run(r, steps(r, 8, 14)) }
 	case "C13", "C14", "C04":
 		return func(r *sim.R) { unpack.Run(r, prop) }
+	case "C07":
+		return func(r *sim.R) { hostile.Run(r) }
 	case "C09":
 		return func(r *sim.R) { order.Run(r, steps(r, 6, 24)) }
 	case "C02", "C08":
